@@ -39,3 +39,18 @@ Definition ns_route (s : ns_state) (pk : bytes) : route_result :=
               else let p := part_of pk n in
                    if existsb (N.eqb p) (hosted s) then Served p else Rejected
   end.
+
+(* a merged multi-key command (server/merge.go getHandlersForKeys): every key must be routable on
+   this node, otherwise the whole command is rejected — never a partial dispatch *)
+Fixpoint ns_route_all (s : ns_state) (pks : list bytes) : option (list N) :=
+  match pks with
+  | [] => Some []
+  | pk :: r =>
+      match ns_route s pk, ns_route_all s r with
+      | Served p, Some l => Some (p :: l)
+      | _, _ => None
+      end
+  end.
+
+Definition ns_hosting (pnum : N) (hosted_pids : list N) : ns_state :=
+  {| meta := Some pnum; hosted := hosted_pids; last_conf := Some pnum |}.
